@@ -93,15 +93,6 @@ InputClass(op) ==
   ELSE IF Len(op.args) = 1 THEN ClassStr(op.args, 1)
   ELSE "several-arguments"
 
-\* Diagnostic hypothesis (it never turns a failure into a pass; it only NAMES one): "None is refused
-\* as the value of `method` with TypeError".  A call whose result contradicts the model and is
-\* exactly what the hypothesis predicts gets the clause of the single-argument case, whatever
-\* other arguments it carries, so that this defect has one signature per family and route.
-NoneRefusedExplains(op, res) ==
-  /\ op.r \in {"draw", "check"} /\ "method" \in Known(Fam)
-  /\ Given(op.args, "method") /\ ValOf(op.args, "method").t = "none"
-  /\ res = "TypeError"
-
 ProbeAspect(e, c2, m2, sn, i) ==
   LET p == e.pr[i]
       xp == Exp(c2, m2, PlainOp(i)) IN
@@ -135,9 +126,8 @@ Clause(e, c1, m1, c2, m2, sn) ==
             ELSE ProbeAspect(e, c2, m2, sn2, CHOOSE i \in bad : \A j \in bad : i <= j)
   IN
   IF e.res \notin x.res THEN
-    (IF NoneRefusedExplains(op, e.res) THEN "rejects-valid:method-none"
-     ELSE (IF ok THEN "rejects-valid:" ELSE IF e.res = "ok" THEN "accepts-invalid:" ELSE "wrong-exception:")
-            \o InputClass(op))
+    (IF ok THEN "rejects-valid:" ELSE IF e.res = "ok" THEN "accepts-invalid:" ELSE "wrong-exception:")
+      \o InputClass(op)
   ELSE IF e.so THEN "wrote-to-stdout"
   ELSE IF asp = "output" THEN
     (IF renders THEN "accepted-call-drew-nothing"
